@@ -390,21 +390,21 @@ def build_graph(ctx, source_kwargs):
         elif op == 'buffer':
             s = ups[0].buffer(n['n'])
         elif op == 'delay':
-            s = ups[0].delay(n['interval'])
+            s = ups[0].delay(interval_arg(n))
         elif op == 'rate_limit':
-            s = ups[0].rate_limit(n['interval'])
+            s = ups[0].rate_limit(interval_arg(n))
             cont = True
         elif op == 'map_async':
             spec = tuple(n['fn'])
             s = ups[0].map_async(ctx.async_fn(nid, lambda x, _s=spec: fns.f1(_s, x), 'job', n.get('kind', 'native')),
                                  parallelism=n.get('parallelism', 1))
         elif op == 'timed_window':
-            s = ups[0].timed_window(n['interval'])
+            s = ups[0].timed_window(interval_arg(n))
         elif op == 'timed_window_unique':
             tkw = {'keep': n.get('keep', 'first')}
             if n.get('key') is not None:
                 tkw['key'] = key_of(ctx, nid, n['key'])
-            s = ups[0].timed_window_unique(n['interval'], **tkw)
+            s = ups[0].timed_window_unique(interval_arg(n), **tkw)
         elif op == 'latest':
             s = ups[0].latest()
         elif op == 'sink':
@@ -426,6 +426,13 @@ def build_graph(ctx, source_kwargs):
     for fb in sc.get('feedback', []):
         N[fb['from']].connect(N[fb['to']])
     return N
+
+
+def interval_arg(n):
+    """the documented alternative spelling of an interval: a pandas time string ('250ms')"""
+    if n.get('interval_str'):
+        return '%dms' % round(n['interval'] * 1000)
+    return n['interval']
 
 
 def freeze_in(v):
